@@ -22,6 +22,8 @@
 (*    the dictionary of the encoder, on ImplEncoder).  EqMode = "uri"      *)
 (*    (history/MC_Encoding_eq_uri.cfg): an equality that identifies terms  *)
 (*    by URI while the hash stays on the name -- refuted on the pairs.     *)
+(*    HashMode = "note_iso" (history/MC_Encoding_hash_note_iso.cfg), KeyMode*)
+(*    = "declared_fields" (history/MC_Encoding_key_declared_fields.cfg).   *)
 (*    EqMode = "nan_equal" (history/MC_Encoding_eq_nan.cfg): NaN features  *)
 (*    equal while hash(nan) follows object identity.  KeyMode =            *)
 (*    "strip_value" (history/MC_Encoding_key_strip_value.cfg).             *)
@@ -33,6 +35,7 @@ CONSTANTS MaxVocab, MaxTags, NTags, SmallTags, KeyMode, HashMode,
           NearPairs,   \* derived objects meet: TRUE = partners differing in <= 1 field, FALSE = model-equal partners only
           EqMode,      \* "structural" (the code) | "uri" (control: terms with the same URI are equal whatever their names)
           ProvTags,    \* tag lists up to this length meet vocabularies of <= 2 tags written differently (vprov # qprov ...)
+          FreshApart,  \* freshly built pairs of the classes with >= 4 fields: at most this many fields apart
           WideProv     \* partner provenance: TRUE = fresh / deep_copy / revalidate / same as the first, FALSE = fresh / same
 VARIABLES c, pc, i, map, cls, multi, pred
 
@@ -53,13 +56,15 @@ EncCase(v, ts) == EncCaseP(v, ts, "fresh", "fresh")
 Written == {"fresh", "explicit_defaults", "extras_ab", "extras_ba"}
 
 PairCase(k, x, px, y, py) == [kind |-> "pair", cls |-> k, x |-> x, y |-> y, px |-> px, py |-> py]
-PartnerProvs(px) == (IF WideProv THEN {Fresh, Prov("deep_copy", 0), Prov("revalidate", 0), px} ELSE {Fresh, px}) \cup
+PartnerProvs(px) == (IF WideProv THEN {Fresh, Prov("deep_copy", 0), Prov("revalidate", 0), px}
+                     ELSE IF HasExtras(px.mode) THEN {Fresh, px} ELSE {Fresh}) \cup
                     (IF px = ExtrasAB THEN {ExtrasBA} ELSE IF px = ExtrasBA THEN {ExtrasAB} ELSE {})
 
 Key(u) == CASE KeyMode = "term_value"  -> <<UTag[u][1], UTag[u][2]>>
             [] KeyMode = "name_value"  -> <<TermName[UTag[u][1]], UTag[u][2]>>
             [] KeyMode = "label_value" -> <<TermLabel[UTag[u][1]], UTag[u][2]>>
             [] KeyMode = "value"       -> <<UTag[u][2]>>
+            [] KeyMode = "declared_fields" -> <<Declared[UTag[u][1]], UTag[u][2]>>   \* control: extras of the term ignored
             [] KeyMode = "strip_value" -> <<UTag[u][1], StripVal[UTag[u][2]]>>       \* control: (term, value.strip())
 \* a python dict finds an equal key only under an equal hash; control HashMode = "fields_set": the hash of a term depends
 \* on which fields were passed explicitly, so equal tags written differently miss each other
@@ -72,11 +77,13 @@ Init == /\ \/ \E v \in Vocabs, ts \in TagLists : (Len(v) < MaxVocab \/ Len(ts) <
            \/ \E v \in {w \in SeqsUpTo(UriTags, 2) : Injective(w)}, ts \in SeqsUpTo(UriTags, 2) : c = EncCase(v, ts)
            \* tag values that differ only by surrounding whitespace ("a", "a ", " a") are different tags
            \/ \E v \in {w \in SeqsUpTo(WsTags, 2) : Injective(w)}, ts \in SeqsUpTo(WsTags, 2) : c = EncCase(v, ts)
+           \* tags on terms that differ only in an extra attribute (absent / draft / final) are different tags
+           \/ \E v \in {w \in SeqsUpTo(XTags, 2) : Injective(w)}, ts \in SeqsUpTo(XTags, 2) : c = EncCase(v, ts)
            \/ \E v \in Vocabs, ts \in TagLists : \E vp \in Written, qp \in Written :
                  Len(v) <= 2 /\ Len(ts) <= ProvTags /\ <<vp, qp>> # <<"fresh", "fresh">> /\ SameContent(vp, qp)
                  /\ c = EncCaseP(v, ts, vp, qp)
            \/ \E k \in 1..Len(ClassNames) : \E x \in Objects(k), y \in Objects(k) :
-                 (k # 1 \/ DiffCount(x, y) <= 2) /\ c = PairCase(k, x, Fresh, y, Fresh)      \* Term: at most two fields apart
+                 (k \in {2, 3} \/ DiffCount(x, y) <= FreshApart) /\ c = PairCase(k, x, Fresh, y, Fresh)
            \/ \E k \in 1..Len(ClassNames) : \E x \in Objects(k), y \in Objects(k) :
                  \E px \in Provs(k) \ {Fresh} : \E py \in PartnerProvs(px) :
                     (IF NearPairs THEN Near(k, x, y) ELSE ModelEq(k, x, y)) /\ c = PairCase(k, x, px, y, py)
@@ -127,6 +134,8 @@ FinalHash(who, x) == IF HashMode = "memo"
                      ELSE IF HashMode = "fields_set"      \* Term / Tag / Feature: the hash also sees how the term was written
                      THEN HashKey("code", c.cls, x, who) \o
                           (IF c.cls <= 3 THEN <<(IF who = 1 THEN c.px ELSE c.py) = Explicit>> ELSE <<>>)
+                     ELSE IF HashMode = "note_iso"        \* Note: the hash also sees how created_on is spelled
+                     THEN HashKey("code", c.cls, x, who) \o (IF c.cls = 4 THEN <<x[4]>> ELSE <<>>)
                      ELSE IF HashMode = "extras_order"    \* ... or the order in which its extra attributes were given
                      THEN HashKey("code", c.cls, x, who) \o
                           (LET m == (IF who = 1 THEN c.px ELSE c.py).mode
